@@ -1,6 +1,4 @@
 package routing
 
-func (n *nodeSim) checkCopy(tr *btrack, rec *sendRec)        {}
 func (n *nodeSim) checkSprayChoice(tr *btrack, rec *sendRec) {}
 func (n *nodeSim) spraySendDone(tr *btrack, rec *sendRec)    {}
-func (n *nodeSim) checkStatusReport(rec *sendRec)            {}
